@@ -1538,3 +1538,8 @@ impl StagedOutputs {
         (output.append_contents(&self.rows), self.n_stale)
     }
 }
+
+#[cfg(kani)]
+pub(crate) mod verif_kani {
+    include!(concat!(env!("EGGLOG_VERIF_DIR"), "/kani/cr_table.rs"));
+}
